@@ -48,6 +48,19 @@ def family(rng):
     padded = sorted(base + [[o, 0] for o in pad], key=lambda oc: Fraction(*oc[0]))
     fam.append(typed(padded, "int"))
     fam.append(typed(base, rng.choice(["float", "Fraction", "bool"])))
+    if rng.random() < 0.5:
+        # UNEQUAL histograms whose items hash alike in CPython (hash(-1) == hash(-2); hash(x) == hash(x + 2**61 - 1)):
+        # a digest of the key is not the key
+        c = [rng.choice([1, 1, 2]) for _ in range(3)]
+        if rng.random() < 0.5:
+            a, b = [-1, 0, 1], [-2, 0, 1]
+        else:
+            m = 2 ** 61 - 1
+            a, b = [0, 1, 3], [m, m + 1, m + 3]
+        tw = [typed([[gens.q(o), k] for o, k in zip(x, c)], "int") for x in (a, b)]
+        if rng.random() < 0.5:
+            tw.reverse()
+        fam = fam[:2] + tw + fam[2:]
     return fam
 
 
@@ -91,8 +104,8 @@ def gen_shared_query(rng, objs):
             q["which"] = rng.choice([[{"i": 0}], [{"i": -1}], [{"s": [None, n - 1, None]}], [{"s": [1, None, None]}], [{"i": 1}]])
         return q
     if k == "order":
-        n = rng.randint(1, 3)
-        return {"q": k, "h": a, "n": n, "pos": rng.randint(-n, n - 1)}
+        n = rng.randint(0, 3)
+        return {"q": k, "h": a, "n": n, "pos": rng.randint(-n, n - 1) if n else 0}
     if k in ("eq", "hasheq"):
         return {"q": k, "a": a, "b": rng.choice(refs)}
     if k in ("setlen", "homog"):
@@ -102,12 +115,27 @@ def gen_shared_query(rng, objs):
     return {"q": k, "a": a}
 
 
+def _with_echo(rng, qs, members):
+    """the SAME pool question asked again of another member of the family (same n, same selection)"""
+    import copy
+    out = []
+    for q in qs:
+        out.append(q)
+        if q["q"] in ("h", "rwc") and rng.random() < 0.6:
+            other = rng.choice(members)
+            e = copy.deepcopy(q)
+            e["dice"] = [other for _ in q["dice"]]
+            out.append(e)
+    return out
+
+
 def gen_cases(rng, tier):
     n = 40 if tier == "quick" else 400
     cases = []
     for _ in range(n):
         fam = family(rng)
         qs = [gen_query(rng, fam) for _ in range(rng.randint(2, 6))]
+        qs = _with_echo(rng, qs, fam)
         cases.append({"kind": "history", "queries": qs})
     for _ in range(n):
         objs = family(rng)
@@ -115,6 +143,14 @@ def gen_cases(rng, tier):
             objs = objs + family(rng)[:2]
         rng.shuffle(objs)
         qs = [gen_shared_query(rng, objs) for _ in range(rng.randint(2, 7))]
+        if rng.random() < 0.3:
+            # a sweep of n upwards on ONE object, starting at the n == 0 boundary
+            a = {"ref": rng.randrange(len(objs))}
+            n0 = rng.choice([0, 0, 1])
+            sweep = [{"q": "order", "h": a, "n": n, "pos": rng.randint(-n, n - 1) if n else 0} for n in range(n0, n0 + rng.randint(2, 4))]
+            j = rng.randrange(len(qs) + 1)
+            qs[j:j] = sweep
+        qs = _with_echo(rng, qs, [{"ref": i} for i in range(len(objs))])
         cases.append({"kind": "shared", "objects": objs, "queries": qs})
     return cases
 
